@@ -23,6 +23,12 @@ def tags(r):
             t.add("b:u64-max")
         if r.entry(mi) is not None:
             t.add("ref:entry")
+            owner = [k for k, mj in enumerate(r.mods) if any(c is r.entry(mi) for c in mj["code"])]
+            here = r.mods.index(mi)
+            if owner and owner[0] < here:
+                t.add("ref:entry-in-earlier-module")
+            elif owner and owner[0] > here:
+                t.add("ref:entry-in-later-module")
         if m["aux"]:
             t.add("aux:module")
         for s in m["sections"]:
